@@ -136,7 +136,8 @@ Definition check (c : case) : bool :=
       bytes_eqb (marshal_uint n) enc && Nat.eqb (writable_uint_size n) size &&
       outcome_eqb nn_eqb (consumed enc (unmarshal_uint enc)) (Ok (n, length enc))
   | KVarDec buf obs => outcome_eqb nn_eqb (consumed buf (unmarshal_uint buf)) obs
-  | KBytesDec buf obs => outcome_eqb bn_eqb (consumed buf (unmarshal_bytes buf)) obs
+  (* the dependency's xbinary.UnmarshalBytes called directly (the /repo decoders go through the guarded unmarshal_bytes) *)
+  | KBytesDec buf obs => outcome_eqb bn_eqb (consumed buf (unmarshal_bytes_dep buf)) obs
   | KFixed k n enc =>
       bytes_eqb (marshal_fixed k n) enc && outcome_eqb nn_eqb (consumed enc (unmarshal_fixed k enc)) (Ok (n, k))
   | KLeEnc e size enc =>
